@@ -65,7 +65,7 @@ class NodesDriver:
         op = ev["op"]
         stats["op:" + op] = stats.get("op:" + op, 0) + 1
         if op == "declare":
-            lhs = self._u(ev["u"])
+            lhs = self._u(ev["u"])     # carries the declaration's left prefix, if any
             rhs = self._u(ev["v"])
             lhs.equals(as_number(pv_value(ev["pv"])) * rhs)
             ctx["asked"] = {k: v + ["D"] for k, v in ctx["asked"].items()}
@@ -174,14 +174,15 @@ def run_c08(tier, seed):
     require_ok(sh, "MC_ConvShapes (C08 compound)")
     v.add_tlc(sh, "MC_ConvShapes (compound pairs for cold/warm single-valuedness)")
     system, cases = sh.exports["SYS"][0], sh.exports["E"]
-    drv = ShapesDriver(system=system, decl=system["decl"], props=(), obs=True)
+    drv = ShapesDriver(system=system, decl=system["decl"], props=("C08",), obs=True)
     cold = replay_histories([[c] for c in cases], drv, split_depth=1, label="c08_cold")
     oc = {o["key"]: o["detail"] for o in cold["obs"]}
     ndiff = 0
     for rnd in range(1 if tier == "quick" else 4):
         order = list(cases)
         random.Random(seed * 100 + rnd).shuffle(order)
-        warm = replay_histories([order[i::12] for i in range(12)], drv, split_depth=1, label="c08_warm")
+        warm = replay_histories([order[i::12] + order[i::12][:150] for i in range(12)], drv, split_depth=1, label="c08_warm")
+        v.add_violations([dict(x, prop="C08") for x in warm["mm"] if x.get("prop") == "C08"])
         v.impl += warm["n"]
         for o in warm["obs"]:
             d = oc.get(o["key"])
@@ -195,6 +196,7 @@ def run_c08(tier, seed):
     v.impl += cold["n"]
     v.evaluations += cold["n"]
     v.extra["compound_cold_vs_warm"] = {"pairs": len(cases), "differences": ndiff}
+    compound_histories(v, tier, seed)
     nv = run_tlc("MC_Memo", wd=workdir("tlc_memo"), workers=2, timeout=600)
     rp = run_tlc("MC_Memo", cfg="MC_MemoRepaired.cfg", wd=workdir("tlc_memo_rep"), workers=2, timeout=600)
     require_ok(rp, "MemoShipped with InvalidateOnDeclare")
@@ -255,10 +257,11 @@ class ShapesDriver:
         for i in self.decl:
             c = self.sys["cands"][i - 1]
             rhs = self._u({"p": c["p"], "f": c["r"]})
-            self.unit[c["l"]].equals(as_number(pv_value(c["pv"])) * rhs)
+            lhs = self.unit[c["l"]] if not c["lp"] else self.m.Prefix(10, c["lp"]) * self.unit[c["l"]]
+            lhs.equals(as_number(pv_value(c["pv"])) * rhs)
 
     def fresh_ctx(self):
-        return {}
+        return {"answers": {}}
 
     def _u(self, rec):
         m = self.m
@@ -296,10 +299,33 @@ class ShapesDriver:
         case = "%s->%s" % (_b(ev["u"]), _b(ev["v"]))
         out, val, unit_ok = self._convert(mag * u, v)
         stats["out:" + out.split("@")[0]] = stats.get("out:" + out.split("@")[0], 0) + 1
+        prev = ctx["answers"].get(case)
+        if prev is None:
+            ctx["answers"][case] = (out, repr(val))
+        elif prev != (out, repr(val)):
+            stats["repeats"] = stats.get("repeats", 0) + 1
+            mm.append(self._mm("C08", "compound:repeat-differs:%s" % shape, "%s answered %s, later in the same process %s" % (case, prev, (out, repr(val)))))
+        else:
+            stats["repeats"] = stats.get("repeats", 0) + 1
         if self.obs:
             mm.append({"prop": "OBS", "key": case, "detail": [out, repr(val)]})
         if out not in ("ok", "CNF"):
             mm.append(self._mm("C07", "convert:escaped:%s" % out.split(":", 1)[1], "%s raised %s" % (case, out)))
+        elif ev["out"] == "CNF" and out == "ok":
+            mm.append(self._mm("C07", "convert:impossible-returned-a-value:%s" % shape,
+                               "%s involves a unit no declaration mentions, yet returned %r" % (case, val)))
+        if ev["out"] == "CNF" and "C07" in self.props:
+            stats["impossible"] = stats.get("impossible", 0) + 1
+            for name, f, want in (("==", lambda: (mag * u) == (mag * v), False), ("!=", lambda: (mag * u) != (mag * v), True),
+                                  ("<", lambda: (mag * u) < (mag * v), "TypeError"), (">=", lambda: (mag * u) >= (mag * v), "TypeError")):
+                try:
+                    r = f()
+                except TypeError:
+                    r = "TypeError"
+                except Exception as ex:
+                    r = "OTHER:" + type(ex).__name__
+                if r != want:
+                    mm.append(self._mm("C07", "compare:impossible:%s gave %s" % (name, r), "%s %s gave %r, must be %r" % (case, name, r, want)))
         # comparisons that would need the conversion: == False / ordering TypeError, nothing else
         if "C07" in self.props:
             for name, f in (("==", lambda: (mag * u) == (mag * v)), ("<", lambda: (mag * u) < (mag * v)),
@@ -366,10 +392,10 @@ class ShapesDriver:
         return {"prop": prop, "key": key, "detail": detail}
 
 
-def tlc_shapes(label, cfg="MC_ConvShapes.cfg", maxe1=2, maxe2=1, maxe3=0, prefixed=0, mask=0, timeout=3000):
+def tlc_shapes(label, cfg="MC_ConvShapes.cfg", maxe1=2, maxe2=1, maxe3=0, prefixed=0, mask=0, timeout=3000, nenum=19):
     return run_tlc("MC_ConvShapes", cfg=cfg, wd=workdir("tlc_shapes_" + label),
                    env={"VERIF_MAXE1": maxe1, "VERIF_MAXE2": maxe2, "VERIF_MAXE3": maxe3,
-                        "VERIF_PREFIXED": prefixed, "VERIF_SUBSET": mask}, workers=8, timeout=timeout)
+                        "VERIF_PREFIXED": prefixed, "VERIF_SUBSET": mask, "VERIF_NENUM": nenum}, workers=8, timeout=timeout)
 
 
 def shapes_bounds(tier):
@@ -382,8 +408,8 @@ def run_shapes(prop, tier, seed):
                      "floats compared at 1e-12 relative on S1", "shipped-unit pairs are sampled separately (see coverage.shipped)"]
     rng = random.Random(seed)
     bounds = shapes_bounds(tier)
-    if prop == "C07" and tier == "quick":
-        bounds = dict(maxe1=1, maxe2=1, prefixed=0)
+    if prop == "C07":
+        bounds = dict(maxe1=2, maxe2=2, prefixed=0, nenum=10) if tier == "quick" else dict(maxe1=3, maxe2=2, prefixed=1)
     res = tlc_shapes("pairs", **bounds)
     require_ok(res, "MC_ConvShapes")
     v.add_tlc(res, "MC_ConvShapes %s" % bounds)
@@ -407,7 +433,8 @@ def run_shapes(prop, tier, seed):
         rep = replay_histories(hists, drv, split_depth=1, label="shapes_cold")
         warm_order = [c for h in hists for c in h]
         rng.shuffle(warm_order)
-        chunks = [warm_order[i::16] for i in range(16)]
+        # warm chains end with a repeat of their first 150 cases (after hundreds of other plans were made)
+        chunks = [warm_order[i::16] + warm_order[i::16][:150] for i in range(16)]
         repw = replay_histories(chunks, drv, split_depth=1, label="shapes_warm")
         for r in (rep, repw):
             v.impl += r["n"]
@@ -417,14 +444,15 @@ def run_shapes(prop, tier, seed):
         v.extra["replay"] = {"cases": len(hists), "cold": rep["stats"], "warm": repw["stats"]}
         v.exhaustive = True
     else:  # C07: partially connected configurations x interpreter modes
-        masks = list(range(64)) if tier == "thorough" else [0, 63] + rng.sample(range(1, 63), 4)
+        masks = list(range(64)) if tier == "thorough" else [33] + rng.sample(range(0, 63), 1)
         total_nontrivial = 0
         agree = 0
         for mask in masks:
-            r1 = tlc_shapes("cfg%d" % mask, maxe1=1, maxe2=0, mask=mask)
+            r1 = tlc_shapes("cfg%d" % mask, mask=mask, **bounds)
             require_ok(r1, "MC_ConvShapes mask=%d" % mask)
             decl = r1.exports["SYS"][0]["decl"]
-            v.states += 1
+            hists = [[c] for c in r1.exports["E"]]
+            v.add_tlc(r1, "MC_ConvShapes mask=%d" % mask)
             obs = {}
             for opt in (False, True):
                 drv = ShapesDriver(system=system, decl=decl, props=("C07",), obs=True, optimized=opt)
@@ -456,3 +484,81 @@ def run_shapes(prop, tier, seed):
     rng.shuffle(cases)
     v.samples = [{"u": _b(c["u"]), "v": _b(c["v"]), "ratio_pv": c["pv"]} for c in cases[:5]]
     return v.finish()
+
+
+# =============================================================================== compound histories (C08)
+
+class HistDriver(ShapesDriver):
+    """MC_ConvHist: declarations arrive DURING the history; every conversion is recorded as an
+    observation keyed by (declaration sequence so far, query)."""
+    SPEC = "conversions:HistDriver"
+
+    def prepare(self):
+        import alpha
+        self.A = alpha
+        self.m = alpha.measured
+        from measured import conversions
+        self.conv = conversions
+        self.unit = {}
+        for tok in self.sys["base"]:
+            dim = alpha.dim_from_vec(self.sys["bdim"][tok])
+            self.unit[tok] = dim.unit("vh" + tok + "unit", "vh" + tok)
+
+    def fresh_ctx(self):
+        return {"decl": [], "nq": 0}
+
+    def apply(self, ev, ctx, stats):
+        if ev["op"] == "declare":
+            c = self.sys["cands"][ev["i"] - 1]
+            lhs = self.unit[c["l"]] if not c["lp"] else self.m.Prefix(10, c["lp"]) * self.unit[c["l"]]
+            lhs.equals(as_number(pv_value(c["pv"])) * self._u({"p": c["p"], "f": c["r"]}))
+            ctx["decl"].append(ev["i"])
+            return []
+        u, v = self._u(ev["u"]), self._u(ev["v"])
+        out, val, unit_ok = self._convert(3 * u, v)
+        out2, val2, _ = self._convert(3 * u, v)
+        mm = []
+        if (out, repr(val)) != (out2, repr(val2)):
+            mm.append(self._mm("C08", "compound:immediate-repeat-differs", "query %d gave %s then %s" % (ev["i"], (out, val), (out2, val2))))
+        if out == "ok" and not unit_ok:
+            mm.append(self._mm("C04", "unit:hist", "query %d returned another unit" % ev["i"]))
+        mm.append({"prop": "OBS", "key": json.dumps([ctx["decl"], ev["i"], ctx["nq"]]), "detail": [out.split("@")[0], repr(val)]})
+        ctx["nq"] += 1
+        stats["out:" + out.split("@")[0]] = stats.get("out:" + out.split("@")[0], 0) + 1
+        return mm
+
+
+def compound_histories(v, tier, seed):
+    maxdecl, maxq = (3, 2) if tier == "quick" else (4, 3)
+    res = run_tlc("MC_ConvHist", wd=workdir("tlc_convhist"), env={"VERIF_MAXDECL": maxdecl, "VERIF_MAXQ": maxq},
+                  workers=8, timeout=3000)
+    require_ok(res, "MC_ConvHist")
+    v.add_tlc(res, "MC_ConvHist maxdecl=%d maxq=%d" % (maxdecl, maxq))
+    system = res.exports["SYS"][0]
+    hists = res.exports["H"]
+    rep = replay_histories(hists, HistDriver(system=system, decl=[], props=("C08",), obs=True), split_depth=2, label="convhist")
+    v.impl += rep["n"]
+    v.evaluations += rep["n"]
+    v.add_violations(rep["mm"])
+    ref, others = {}, []
+    for o in rep["obs"]:
+        declseq, q, nq = json.loads(o["key"])
+        k = (tuple(declseq), q)
+        if nq == 0:
+            ref.setdefault(k, o["detail"])
+        others.append((k, nq, o["detail"]))
+    nontrivial = 0
+    for k, nq, d in others:
+        r = ref.get(k)
+        if r is None:
+            raise MachineryError("no single-query reference history for %r" % (k,))
+        same = r[0] == d[0] and (r[1] == d[1] or (r[1] != "None" and d[1] != "None" and close(float(r[1]), float(d[1]), 1e-12)))
+        if nq > 0:
+            nontrivial += 1
+        if not same:
+            v.violations.append({"prop": "C08", "key": "compound:history-dependent:query%d" % k[1],
+                                 "detail": "declarations %s then query %d: alone it gives %s, after %d earlier queries it gives %s" % (list(k[0]), k[1], r, nq, d),
+                                 "path": [list(k[0]), k[1], nq]})
+    v.nontrivial += nontrivial
+    v.extra["compound_histories"] = {"histories": len(hists), "observations": len(others), "keys": len(ref),
+                                     "outcomes": {k[4:]: n for k, n in rep["stats"].items() if k.startswith("out:")}}
